@@ -19,16 +19,16 @@ Definition rune_width (s : bytes) : nat :=
       else if in_range 224 239 c then
         match t with
         | c1 :: c2 :: _ =>
-            let lo := if N.eqb c 224 then 160 else 128 in
-            let hi := if N.eqb c 237 then 159 else 191 in
+            let lo : N := if N.eqb c 224 then 160%N else 128%N in
+            let hi : N := if N.eqb c 237 then 159%N else 191%N in
             if in_range lo hi c1 && cont c2 then 3 else 1
         | _ => 1
         end
       else if in_range 240 244 c then
         match t with
         | c1 :: c2 :: c3 :: _ =>
-            let lo := if N.eqb c 240 then 144 else 128 in
-            let hi := if N.eqb c 244 then 143 else 191 in
+            let lo : N := if N.eqb c 240 then 144%N else 128%N in
+            let hi : N := if N.eqb c 244 then 143%N else 191%N in
             if in_range lo hi c1 && cont c2 && cont c3 then 4 else 1
         | _ => 1
         end
